@@ -169,8 +169,8 @@ def worker(arg):
 
 def check(tier, seed):
     t = pc.trees("plain", "san")
-    n = 600 if tier == "quick" else 5000
-    nsan = 40 if tier == "quick" else 300
+    n = 600 if tier == "quick" else 3000
+    nsan = 40 if tier == "quick" else 160
     res = Result("exploration")
     res.rule = RULE
     base = seed * 1000000 + (0 if tier == "quick" else 50000) + 230000
